@@ -213,6 +213,24 @@ def real_scenarios(ctx):
     return scs
 
 
+def wt_scenarios(ctx):
+    """the real webtransport.Transport over a real WebTransport session (quic-go over loopback UDP) to a stream-echo server: empty, small,
+    random and multi-megabyte highly repetitive messages in every compression mode it has (off, per message)."""
+    scs = []
+    mb = 1 << 20
+    cfgs = [("off", 0), ("pm", 1), ("pm", 6), ("pm", 9)] if ctx.quick() else [("off", 0)] + [("pm", l) for l in range(1, 10)]
+    lens = [150, 0, 10240, 300000, mb, 4 * mb + 5, 40]
+    for i, (mode, level) in enumerate(cfgs):
+        for j, content in enumerate(("rep", "rnd") if ctx.quick() else CONTENTS):
+            steps = []
+            for n in lens:
+                steps += [{"a": "write", "n": n}, {"a": "read"}]
+            steps += [{"a": "write", "n": 2000}, {"a": "write", "n": 70000}, {"a": "read"}, {"a": "read"}]
+            scs.append({"id": "C13/wt/%s-%d/%s" % (mode, level, content), "kind": "wtreal",
+                        "p": {"mode": mode, "level": level, "bits": 0, "content": content, "seed": 90 + 2 * i + j, "server": "stream", "backend": "webtransport"}, "steps": steps})
+    return scs
+
+
 def mix_scenarios(ctx):
     """reliable writers concurrent with datagram writers on one quic transport (StreamFraming with DWriters > 0)."""
     scs = []
@@ -243,8 +261,8 @@ def run():
         "(WsWindowConc with Excl=FALSE violates NoInterleave/HeadDecodable in the model)",
         "window sizes 2^31 and 2^32 are represented by 2^31-1 in the model (TLC integers); no scenario writes that many bytes",
         "QUIC: the real transport/quic.Transport runs over an in-memory quic.Connection (one byte pipe per unidirectional stream, "
-        "arbitrary read fragmentation); the WebTransport transport (identical framing code, concrete *webtransport.Session) and quic-go's "
-        "network path are not exercised",
+        "arbitrary read fragmentation); the WebTransport transport runs over a real WebTransport session (quic-go over loopback UDP, "
+        "self-signed certificate) against a stream-echo server (family wt); quic-go's network path under the QUIC transport itself is not exercised",
         "real WebSocket backends (family real): websocket.New over coder / gorilla / nhooyr connections dialled over loopback TCP to an echo "
         "server (fragmenting or single-frame); the one transport is writer and reader; messages stay below 32 KiB (the echo side's default "
         "read limit is lifted, the sizes keep the lazy pattern inside the socket buffers)",
@@ -351,6 +369,12 @@ def run():
     trace3 = ctx.run_scenarios(mix, "c13mix", par=4, timeout=1500)
     verdicts3, _ = retry(ctx.validate, trace3, "MonC13r", consts=MON_CONSTS, timeout=1200)
     ctx.judge(mix, trace3, verdicts3)
+    wt = wt_scenarios(ctx)
+    trace4 = ctx.run_scenarios(wt, "c13wt", par=4, timeout=1500)
+    verdicts4, _ = retry(ctx.validate, trace4, "MonC13r", consts=MON_CONSTS, timeout=1200)
+    nwt = ctx.judge(wt, trace4, verdicts4)
+    if nwt < len(wt) // 2:
+        raise Inconclusive("only %d of %d WebTransport scenarios could be judged (no loopback UDP?)" % (nwt, len(wt)))
     if nreal < len(real) // 2:
         raise Inconclusive("only %d of %d real-backend scenarios could be judged (no loopback listener?)" % (nreal, len(real)))
     if ctx.violations:
